@@ -32,6 +32,14 @@ Proof. vm_compute. split; reflexivity. Qed.
 Example add_data_refused : step (AddData 3) (init_v true) = (init_v true, 1).
 Proof. reflexivity. Qed.
 
+(* a subset layer without its dataset's layer: handed over alone (sub 0 of dataset 0), or left behind by remove_layer
+   (sub 1 of dataset 1); deleting the group removes both, although neither dataset has a layer *)
+Example lone_subset_layers :
+  let h := [Append 0; Append 1; NewGroup 0; AddSubset 0 0 0; AddData 1; RemoveLayer 1] in
+  (arts (fst (run_v h (init_v true) [])), snd (run_v h (init_v true) []),
+   arts (fst (run_v (h ++ [RemoveGroup 0]) (init_v true) []))) = ([LSub 0 0 0; LSub 1 1 0], [], []).
+Proof. vm_compute. reflexivity. Qed.
+
 (* ---- part 2: the selected attribute is removed inside a hub delay block ---- *)
 Definition ds1 : list dinfo := [mkD 0 [(10, 0); (11, 2); (12, 0)] [] [13] []; mkD 1 [(20, 0)] [] [21] []].
 Definition fl1 : flags := mkF true true true false false true false.
